@@ -375,7 +375,7 @@ func TestPropRequestRoundTrip(t *testing.T) {
 	}()
 	vh.Rapid(t, vh.Scale(1000, 30000), func(rt *rapid.T) {
 		c := genCase(rt)
-		rec.Check(rt, &c, func() vh.Outcome { return runCase(rt, &c) })
+		rec.Check(rt, &c, func() vh.Outcome { return stack(rt).Stack.Discount(runCase(rt, &c)) })
 	})
 }
 
